@@ -32,6 +32,8 @@ def _scans_state_writers(prog, S, tags):
             "?": {"Operator.transition"}}, tags),
         scan.scan_immutables(prog, S, tags),
         scan.scan_no_eq_hash(prog, tags),
+        scan.scan_writers(prog, "node-graph-writers", {"children", "parents", "roots", "node_ids", "node_lookup"},
+                          {"Node.__init__", "DAG.__init__", "DAG.add_node"}, tags),
     ]
 
 
